@@ -69,6 +69,17 @@ def generate(tier, seed):
         cases.append({"kind": "compose", "r1": seqrot(r, maxm=2), "r2": seqrot(r, maxm=2), "p1": vec(r), "p2": vec(r), "v": vec(r, -3, 3)})
     for _ in range(15 * reps):
         cases.append({"kind": "inertia", "r": seqrot(r, maxm=2), "ic": r.choice(INERTIAS), "mass": r.choice([2, 3, 5, 1]), "com": vec(r), "w": vec(r), "v": vec(r), "s": vec(r)})
+    # angular-velocity helpers (C28): body-fixed x-y-z angles away from the singular middle angle; rational unit quaternions
+    for _ in range(25 * reps):
+        q = [ang(r), ang(r), ang(r)]
+        if q[1]["m"] == 0:
+            q[1]["k"] = r.choice([0, 2])
+        while sum(abs(x["m"]) for x in q) > 3:
+            q[r.choice([0, 2])]["m"] = 0
+        cases.append({"kind": "nxyz", "q": q, "qd": vec(r, -3, 3), "qdd": vec(r, -3, 3)})
+    for comp, e in QUATS:
+        for _ in range(max(1, reps // 2)):
+            cases.append({"kind": "nquat", "q": [{"k": v, "m": e} for v in comp], "w": vec(r, -3, 3), "wd": vec(r, -3, 3)})
     if tier == "quick":
         for _ in range(1500):
             cases.append({"kind": "valid", "d": [r.randint(-1, 4) for _ in range(3)], "p": vec(r)})
@@ -77,6 +88,14 @@ def generate(tier, seed):
             for p in itertools.product(range(-2, 3), repeat=3):
                 cases.append({"kind": "valid", "d": list(d), "p": list(p)})
     return cases
+
+
+def nq_times(c, o):
+    """N(q) * wd computed here from the quaternion (N is linear in q: the library's N is checked through the rate)"""
+    q = [x["k"] / 5.0 ** x["m"] for x in c["q"]]
+    e = [x / 2 for x in q]
+    N = [[-e[1], -e[2], -e[3]], [e[0], e[3], -e[2]], [-e[3], e[0], e[1]], [e[2], -e[1], e[0]]]
+    return [sum(N[i][k] * c["wd"][k] for k in range(3)) for i in range(4)]
 
 
 def main():
@@ -96,7 +115,7 @@ def main():
     binpath = vlib.compile_harness(os.path.join(VERIF, "harness", "replay_alg.cpp"), os.path.join(VERIF, ".build", "bin", "replay_alg"),
                                    extra=["-I" + os.path.join(VERIF, "harness")], libs=("SimTKcommon",))
     cov = {"states": 0, "transitions": 0, "traces_validated_against_impl": 0, "samples": []}
-    mine = ("seq", "quat", "angleaxis", "twoaxes", "compose") if pid == "C27" else ("inertia", "valid")
+    mine = ("seq", "quat", "angleaxis", "twoaxes", "compose") if pid == "C27" else ("nxyz", "nquat") if pid == "C28" else ("inertia", "valid")
     cases = [json.load(open(replay))["replay"]["case"]] if replay else [c for c in generate(tier, vlib.seed()) if c["kind"] in mine]
     pfile = os.path.join(work, "cases.ndjson")
     with open(pfile, "w") as f:
@@ -112,6 +131,10 @@ def main():
     for c, w in zip(cases, want):
         if c["kind"] == "twoaxes":
             c["uvec"], c["vvec"] = w["u"], w["v"]
+        if c["kind"] == "nxyz":
+            c["wB"], c["wBd"], c["wP"], c["wPd"] = w["wB"], w["wBd"], w["wP"], w["wPd"]
+        if c["kind"] == "nquat":
+            c["qdot"] = [x / 2 for x in w["qd2"]]
     with open(pfile, "w") as f:
         for c in cases:
             f.write(json.dumps(c) + "\n")
@@ -146,6 +169,37 @@ def main():
                 rep.violation("%s/not-orthonormal/%s" % (tag, o["prec"]), {"case": c}, "a rotation produced for %s is not proper orthonormal (error %.3g)" % (json.dumps(c)[:300], o["ortho"]))
             if abs(o["qnorm"] - 1) > tol * 10:
                 rep.violation("%s/quaternion-not-unit/%s" % (tag, o["prec"]), {"case": c}, "quaternion norm %.17g" % o["qnorm"])
+        elif c["kind"] == "nxyz":
+            mm = lambda A, B: [[sum(A[i][k] * B[k][j] for k in range(3)) for j in range(3)] for i in range(3)]
+            mv = lambda A, v: [sum(A[i][k] * v[k] for k in range(3)) for i in range(3)]
+            I3 = [[1.0, 0, 0], [0, 1.0, 0], [0, 0, 1.0]]
+            neg = lambda A: [[-x for x in row] for row in A]
+            f = 50.0     # 1/cos of the middle angle enters
+            chk("NInv-body-is-the-kinematic-map", w["Wb"], o["NinvB"], f)
+            chk("NInv-parent-is-the-kinematic-map", w["Wp"], o["NinvP"], f)
+            chk("N-times-NInv-body", I3, mm(o["NB"], w["Wb"]), f)
+            chk("N-times-NInv-parent", I3, mm(o["NP"], w["Wp"]), f)
+            chk("NDot-body-is-the-derivative-of-N", neg(mm(mm(o["NB"], w["Wbd"]), o["NB"])), o["NdotB"], f * f)
+            chk("NDot-parent-is-the-derivative-of-N", neg(mm(mm(o["NP"], w["Wpd"]), o["NP"])), o["NdotP"], f * f)
+            chk("angular-velocity-from-angle-rates", w["wB"], o["wB"], f)
+            chk("angle-rates-from-angular-velocity-body", c["qd"], o["qdB"], f)
+            chk("angle-accelerations-body", c["qdd"], o["qddB"], f * f)
+            chk("angle-rates-from-angular-velocity-parent", c["qd"], o["qdP"], f)
+            chk("angle-accelerations-parent", c["qdd"], o["qddP"], f * f)
+            probe = [1.0, -2.0, 3.0]
+            WpT = [[w["Wp"][j][i] for j in range(3)] for i in range(3)]
+            chk("multiplyBy-NInv", mv(w["Wp"], probe), o["mNinv"], f)
+            chk("multiplyBy-NInvT", mv(WpT, probe), o["mNinvT"], f)
+            chk("multiplyBy-N", probe, mv(w["Wp"], o["mN"]), f)
+            chk("multiplyBy-NT", probe, mv(WpT, o["mNT"]), f)
+        elif c["kind"] == "nquat":
+            I3 = [[1.0, 0, 0], [0, 1.0, 0], [0, 0, 1.0]]
+            chk("quaternion-rate", [x / 2 for x in w["qd2"]], o["qd"])
+            chk("quaternion-acceleration", [x / 4 for x in w["qdd4"]], o["qdd"], 10)
+            chk("NDot-times-w", [a - b for a, b in zip([x / 4 for x in w["qdd4"]], [sum(0 for _ in ()) for _ in range(4)])], [a + b for a, b in zip(o["Ndw"], nq_times(c, o))], 10)
+            chk("angular-velocity-from-quaternion-rate", c["w"], o["wback"])
+            chk("NInv-times-N", I3, o["NiN"])
+            chk("NInv-times-N-unnormalised", [[4.0 * x for x in row] for row in I3], o["NiN2"])
         elif c["kind"] == "compose":
             for k in ("R12", "Ri12", "R1i2", "R1v", "Ri1v", "X12R", "X12p", "XiR", "Xip", "X1v", "Xi1v"):
                 chk(k, w[k], o[k])
@@ -167,7 +221,7 @@ def main():
     cov["axis_sequences"] = len(SEQS) * 2
     cov["samples"] = [{"case": cases[0], "expected": want[0]}, {"case": cases[-1], "expected": want[-1]}]
     cov["uncovered"] = ["rotations off the lattice; nearly-orthogonal input matrices (closest-rotation fitting); neighbourhoods (not exact points) of the singular configurations",
-                        "ArticulatedInertia"] if pid == "C27" else ["inertias off the lattice", "ArticulatedInertia", "rejection by throwing (compiled out under NDEBUG; the predicate isValidInertiaMatrix is compared instead)"]
+                        "ArticulatedInertia"] if pid == "C27" else ["orientations off the lattice", "the body-fixed 3-2-1 helpers", "unnormalised quaternions other than 2q"] if pid == "C28" else ["inertias off the lattice", "ArticulatedInertia", "rejection by throwing (compiled out under NDEBUG; the predicate isValidInertiaMatrix is compared instead)"]
     cov["exhaustive"] = False
     if len(rep.violations) > 30:
         rep.violations = rep.violations[:30]
